@@ -82,6 +82,13 @@ pub fn run(tier: Tier) -> Report {
             cases.push((w, h, q, 0));
         }
     }
+    // medium sizes: every residue mod 16 just above 256, 512 and 1024, as width and as height
+    for base in [256u16, 512, 1024] {
+        for r in 0..16u16 {
+            cases.push((base + r, 17, 1 + (r % 31) as u8, (r % 3) as u8));
+            cases.push((18, base + r, 31 - (r % 31) as u8, ((r + 1) % 3) as u8));
+        }
+    }
     cases.push((2049, 17, 5, 1));
     cases.push((17, 2049, 5, 2));
     // more than 2^24 samples (sizes whose product is not representable in single precision)
